@@ -135,7 +135,7 @@ func (dist *GammaDistribution) SetParameters(parameters Vector) error {
 
 func (dist *GammaDistribution) ImportConfig(config ConfigDistribution, t ScalarType) error {
 
-  if parameters, ok := config.GetParametersAsFloats(); !ok {
+  if parameters, ok := config.GetParametersAsFloats(); !ok || len(parameters) < 2 {
     return fmt.Errorf("invalid config file")
   } else {
     alpha := NewScalar(t, parameters[0])
